@@ -428,6 +428,105 @@ def body_hocur(case):
     return lab
 
 
+# ---------------------------------------------------------------------------------------------------------
+# HOCUR on tensors of high order (dense tensor not representable: 5 ... 64 modes, up to 3^64 entries)
+# ---------------------------------------------------------------------------------------------------------
+# Oracle without the dense tensor: Psi = sum_j (x)_k v_k[:, j] (x) e_j with v_k[i, j] = phi_k^i(x_j), hence
+#   single entries           Psi[i_1..i_p, j]       = prod_k v_k[i_k, j]
+#   rank-one contractions    <Psi, w_1 x ... x w_p> = ( prod_k w_k . v_k[:, j] )_j
+# Both are compared with the same contractions of the returned cores.  Error model (the one of the low-order class): the
+# reconstruction is accurate entry-wise to 1e-7 of the largest entry, so an entry may deviate by 1e-7 max|Psi| and a rank-one
+# contraction by 1e-7 max|Psi| prod_k ||w_k||_1; the check allows ten times that.  The conditioning guards of the low-order class are
+# evaluated in closed form: the singular values of unfolding k are those of A_k diag(nb) (A_k^T A_k = Hadamard product of the
+# per-mode Gram matrices of the first k modes, nb_j = norm of the remaining factors of snapshot j), the entry range is
+# prod_k min_i |v_k[i, j]| ... prod_k max_i |v_k[i, j]|.
+
+NEAR_ONE = [{'family': 'constant'}, {'family': 'cos', 'alpha': 0.5}, {'family': 'gauss', 'mean': 0.0, 'variance': 2.0},
+            {'family': 'periodic_gauss', 'mean': 0.5, 'variance': 2.0}, {'family': 'cos', 'alpha': 1.0},
+            {'family': 'gauss', 'mean': 0.5, 'variance': 2.0}, {'family': 'legendre', 'degree': 0}, {'family': 'monomial', 'exponent': 0}]
+
+
+@st.composite
+def hocur_many_case(draw):
+    d = draw(st.integers(1, 4))
+    m = draw(st.sampled_from([1, 2, 2, 3, 3, 4]))
+    p = draw(st.sampled_from([5, 8, 13, 21, 30, 39, 40, 41, 45, 52, 64]))
+    phi = []
+    nmin = draw(st.sampled_from([1, 2, 3]))          # (all modes of size 3: 3^40 entries exceed 2^63)
+    for _ in range(p):
+        f = []
+        for _ in range(draw(st.integers(nmin, 3))):
+            s_ = dict(draw(st.sampled_from(NEAR_ONE)))
+            s_['index'] = draw(st.integers(0, d - 1))
+            f.append(s_)
+        phi.append(f)
+    return {'d': d, 'm': m, 'phi': phi, 'seed': draw(gen.SEED), 'duplicate': draw(st.sampled_from([False, False, False, True])),
+            'ranks_extra': draw(st.integers(0, 3)), 'repeats': draw(st.integers(1, 3)), 'multiplier': draw(st.sampled_from([2, 3, 10])),
+            'ranks_list': draw(st.booleans()), 'data_form': draw(st.sampled_from(['float', 'float', 'strided', 'fortran', 'readonly']))}
+
+
+def _core_contract(cores, vectors):
+    """<T, w_1 x ... x w_p x e_j>_j from the cores (r, n, 1, r') of a train whose last mode is the snapshot index"""
+    left = np.ones((1,))
+    for c, w in zip(cores[:-1], vectors):
+        left = np.einsum('a,anb,n->b', left, np.asarray(c)[:, :, 0, :], w)
+    return np.einsum('a,aj->j', left, np.asarray(cores[-1])[:, :, 0, 0])
+
+
+def body_hocur_many(case):
+    x = data(case)
+    m, p = case['m'], len(case['phi'])
+    phi = [[make_fn(s) for s in f] for f in case['phi']]
+    vals = [np.array([[ref_value(s, x[:, j]) for j in range(m)] for s in f], dtype=float) for f in case['phi']]
+    n = [len(f) for f in phi]
+    dup = bool(case.get('duplicate')) and m >= 2
+    # closed-form guards (see the header of this section); with a duplicated snapshot the two equal terms are merged first
+    cols = list(range(m - 1)) if dup else list(range(m))
+    wgt = np.ones(len(cols))
+    if dup:
+        wgt[0] = np.sqrt(2.0)               # a (x) (b_0 + b_{m-1}),  b_0 _|_ b_{m-1} of equal norm
+    for k in range(1, p + 1):
+        G = np.ones((len(cols), len(cols)))
+        for v in vals[:k]:
+            G = G * (v[:, cols].T @ v[:, cols])
+        nb = wgt.copy()
+        for v in vals[k:]:
+            nb = nb * np.linalg.norm(v[:, cols], axis=0)
+        ev = np.linalg.eigvalsh(nb[:, None] * G * nb[None, :])
+        assume(ev[-1] > 0 and ev[0] > 1e-6 * ev[-1])      # singular-value ratios >= 1e-3 (resolution of the Gram form: 1e-8)
+    lo = min(float(np.prod([np.min(np.abs(v[:, j])) for v in vals])) for j in range(m))
+    hi = max(float(np.prod([np.max(np.abs(v[:, j])) for v in vals])) for j in range(m))
+    assume(hi > 0 and lo > 1e-9 * hi)
+    r = m + case['ranks_extra']
+    ranks = [1] + [r] * p + [1] if case['ranks_list'] else r
+    t = tdt.hocur(x, phi, ranks, repeats=case['repeats'], multiplier=case['multiplier'], progress=False)
+    require_consistent(t, 'consistent')
+    require(t.row_dims == n + [m] and t.col_dims == [1] * (p + 1), 'dims', 'hocur rows %s' % t.row_dims)
+    require(max(t.ranks) <= m, 'hocur_ranks', 'ranks %s exceed the number of snapshots %d' % (t.ranks, m))
+    rng = np.random.default_rng(case['seed'] ^ 0x5eed)
+    for trial in range(12):
+        kind = trial % 3
+        if kind == 0:       # single entries
+            w = [np.eye(nk)[rng.integers(nk)] for nk in n]
+        elif kind == 1:     # positive rank-one tensors
+            w = [rng.uniform(0.5, 1.5, nk) for nk in n]
+        else:               # entries in some modes, sums over the others
+            w = [np.eye(nk)[rng.integers(nk)] if rng.integers(2) else np.ones(nk) for nk in n]
+        ref = np.ones(m)
+        l1 = 1.0
+        for wk, v in zip(w, vals):
+            ref = ref * (wk @ v)
+            l1 *= float(np.sum(np.abs(wk)))
+        got = _core_contract(t.cores, w)
+        close(got, ref, 1e-6, hi * l1, 'hocur_value', 'hocur with %d modes: %s' % (p, ['single entry', 'rank-one contraction', 'partial sums'][kind]))
+    lab = general_labels(case)
+    lab.add('modes_40plus' if p >= 40 else ('modes_13plus' if p >= 13 else 'modes_5plus'))
+    if int(np.prod([float(nk) for nk in n])) >= 2 ** 63:
+        lab.add('entries_beyond_int64')
+    lab.add('repeats%d' % case['repeats'])
+    return lab
+
+
 def nt(labels):
     return bool({'m1', 'd1', 'single_function_mode', 'mixed_families', 'duplicated_snapshot', 'add_one_false', 'p1', 'data_int', 'data_strided', 'data_fortran',
                  'data_readonly'} & set(labels))
@@ -439,4 +538,6 @@ SUBCHECKS = [
     Sub('hocur', hocur_case(), body_hocur, nt, quick=300, thorough=3000, shards_quick=4,
         classes=['m1', 'single_function_mode', 'mixed_families', 'duplicated_snapshot', 'repeats1', 'repeats3', 'ranks_list_reused',
                  'user_defined_function']),
+    Sub('hocur_many_modes', hocur_many_case(), body_hocur_many, lambda l: bool({'modes_13plus', 'modes_40plus'} & set(l)), quick=60, thorough=1000,
+        shards_quick=4, classes=['modes_5plus', 'modes_13plus', 'modes_40plus', 'entries_beyond_int64', 'm1', 'duplicated_snapshot', 'single_function_mode']),
 ]
